@@ -42,6 +42,14 @@ CHECKS = {
          "In every registry state reachable in <=6 (8 thorough) calls on 3 event types with shared nodes, Reopen must return nil and reach every node object of every registered pipeline, and with each node id failing in turn must return an error that carries that node's error exactly when a registered pipeline contains it. The order in which Reopen visits event types and pipelines is an explored choice.",
          "Harness node objects count Reopen calls; unique error values per object; errors.Is as the 'carries' relation.",
          "DESIGN.md §3 C20"),
+ "C11": ("explicit-state BFS over histories of the real gated.Filter with observation-only invariants and a side-effect-free probe on replayed copies, plus stateless model checking of concurrent Process/FlushAll/Close under the race detector",
+         "Every history up to depth 6 (7 thorough) over events of 3 ids (flush or not), non-Gateable and id-less events, clock steps, FlushAll and Close is executed for 14 configurations (Broker set/nil x composition / sending failing at call k / Gateable composite). Compositions must be handed exactly the events received for the id since its group opened, in order, once; composites leave by the right door; discards only where the statement permits. 22 concurrent scenarios are explored under every schedule within the bound with the race detector on.",
+         "The harness payload type records ComposeFrom arguments; the Sender is harness code; the clock is the filter's own NowFunc.",
+         "DESIGN.md §3 C11"),
+ "C17": ("explicit-state BFS over histories of the real gated.Filter with 0..5 simultaneously open groups; probe on replayed copies after every step",
+         "Every history up to depth 6 (8 thorough) over events of 3 or 5 ids, clock steps, FlushAll and Close, Broker set/nil: after each successful Process at virtual time T no group older than the expiration remains gated and expired groups reached the Sender oldest first; after a successful FlushAll/Close nothing remains and each held group was emitted once. Found and fixed: only the first of several groups was emitted (known-findings file).",
+         "Virtual clock through NowFunc makes every expiry certain; the probe flushes each id on a replayed copy with the clock rewound so it has no sweep side effects.",
+         "DESIGN.md §3 C17"),
 }
 
 NOT_YET = "check not built yet in this session (work in progress; see DESIGN.md for the plan)"
